@@ -19,7 +19,7 @@ pub fn drive(d: &mut Driver)
 {
 	let quick = d.quick();
 	let mut jobs = Vec::new();
-	// type matrix (well-typed and unspecified cells)
+	// type matrix (every cell; ill-typed cells only when they are accepted)
 	for f in c07::FAMILIES
 	{
 		let n = c07::cells(f).len();
@@ -90,11 +90,13 @@ pub fn work(spec: &Value, w: &mut WorkerCtx)
 			let cells = c07::cells(spec["family"].as_str().unwrap());
 			for i in spec["lo"].as_u64().unwrap() as usize..spec["hi"].as_u64().unwrap() as usize
 			{
+				w.result.transitions += 1;
 				if cells[i].expect == Some(false)
 				{
+					// an ill-typed cell is C07's subject, but if it is accepted its IR must still be valid
+					judge_if_accepted(&[("m.pn".into(), cells[i].text.clone())], "type matrix (ill-typed cells)", w);
 					continue;
 				}
-				w.result.transitions += 1;
 				judge(&[("m.pn".into(), cells[i].text.clone())], false, "type matrix", w);
 			}
 		}
